@@ -1,7 +1,7 @@
 (* The predicates the encoders branch on, as TRANSLATED from the Rust source on every run (Gen/SrcPreds.v, translator/rust2coq.py),
    are the hand-written model definitions of Model/Tx.v and Model/Sizes.v.  When a source function changes its meaning the
    corresponding lemma here stops compiling, which breaks the proof channel of C01 / C02 / C12. *)
-From Coq Require Import List NArith Bool.
+From Coq Require Import List NArith Bool Lia.
 From Coq.Strings Require Import Byte.
 From EV Require Import Base.Bytes Base.Codec Model.Tx Model.Sizes Gen.SrcPreds.
 Import ListNotations.
@@ -36,3 +36,8 @@ Lemma existsb_ext' {A} (f g : A -> bool) l : (forall x, f x = g x) -> existsb f 
 Proof. intros E. induction l as [|x l IH]; cbn [existsb]; [reflexivity|]. now rewrite E, IH. Qed.
 Lemma src_has_witness t : src_Transaction_has_witness t = has_witness t.
 Proof. unfold src_Transaction_has_witness, has_witness. f_equal; apply existsb_ext'; intros x; [now rewrite src_inwit_is_empty|now rewrite src_outwit_is_empty]. Qed.
+(* the crate's own VarInt::size (src/encode.rs; used by Block::size / Block::weight) is the compact-size length of Base/Codec.v, for every u64 and beyond *)
+Lemma src_varint_size n : src_VarInt_size n = vi_size n.
+Proof. unfold src_VarInt_size, vi_size.
+  destruct (N.ltb_spec n 0xFD), (N.ltb_spec n 0x10000), (N.ltb_spec n 0x100000000);
+    repeat match goal with |- context [N.leb ?a ?b] => destruct (N.leb_spec a b) end; cbn [andb]; try reflexivity; lia. Qed.
